@@ -438,7 +438,6 @@ def run(ctx):
     check_histories(ctx, rng)
     need = ['verdict-accept', 'verdict-reject', 'history-run', 'anchor-ok', 'anchor-wrong-name'] + ['deviation-' + d for d in set(DEVIATIONS)]
     for k in need:
-        if not ctx.events.get(k):
-            ctx.inconclusive(f'{k}: nothing observed')
+        ctx.need_event(k)
     ctx.assumptions = ['RSA/ECDSA links only (the cascade checker dispatches only these); validity periods are not part of the statement',
                        'pycryptodomex is common-mode; ground truth comes from how the generator built the hierarchy']
